@@ -63,4 +63,13 @@ PROPS = {
              "checked against each other) and NslSem computes the value each accepted program must return, which depends on the declaration each use binds to. "
              "Every program is compiled at both optimisation levels and the accepted ones are executed. Exhaustive to the stated size.",
         note=_TRUST + "Rejection = Compile returns None or raises. Parameter/global clashes are not enumerated (not settled by the statement)."),
+    "C15": dict(
+        claimed=True, level="model_checking",
+        technique="TLA+ specification VMHistory (host operations composed with the NslSem step relation) model-checked by TLC over all histories to a depth plus simulation of longer ones (action properties Isolation, Persistence, FreshLocals); every TLC-generated history replayed on real VirtualMachine objects with state compared after each operation",
+        text="SetGlobal / Invoke / GetGlobal on two VMs of one program are actions of spec/VMHistory.tla; an Invoke is Start, NslSem steps, Finish, so the history as a "
+             "whole is a behaviour of the reference state machine of the source program. TLC enumerates every history over 9 operations per VM up to depth 3 "
+             "(quick) / 4 (thorough) and random histories of 10 / 14 operations, checks isolation, persistence and fresh locals on the specification, and prints "
+             "each history with prescribed results and globals; the driver replays them on the real VMs and compares results and all globals of both VMs after "
+             "every operation.",
+        note=_TRUST + "One library program (scalar, array, struct, vector globals; aggregate locals; recursion); host values are deep-copied by the driver."),
 }
